@@ -21,6 +21,7 @@ from vmon import contracts
 from vmon.core import VERIF_ROOT, outcome
 
 PROPERTY_ID = "C18"
+REPO_TEST_MODULES = ["test_compactfilter", "test_bloomfilter", "test_siphash", "test_network"]  # thorough tier: extra workload under the contracts
 RULE = (
     "cases = (key, message) pairs through SipHash, (seed, message) pairs through murmur3, Golomb inputs, (key, element "
     "set) pairs through encode_gcs / decode_gcs / CompactFilter.parse / membership of every inserted element, filter-hash "
